@@ -3,6 +3,7 @@ use crate::common::Ctx;
 pub mod c01;
 pub mod c02;
 pub mod c03;
+pub mod c04;
 pub mod c05;
 pub mod c06;
 pub mod c07;
@@ -13,4 +14,4 @@ pub mod c13;
 pub mod c17;
 pub mod c21;
 
-pub const REGISTRY: &[(&str, fn(&Ctx) -> !)] = &[("C01", c01::run), ("C02", c02::run), ("C03", c03::run), ("C05", c05::run), ("C06", c06::run), ("C07", c07::run), ("C08", c08::run), ("C17", c17::run), ("C11", c11::run), ("C13", c13::run), ("C21", c21::run)];
+pub const REGISTRY: &[(&str, fn(&Ctx) -> !)] = &[("C01", c01::run), ("C02", c02::run), ("C03", c03::run), ("C04", c04::run), ("C05", c05::run), ("C06", c06::run), ("C07", c07::run), ("C08", c08::run), ("C17", c17::run), ("C11", c11::run), ("C13", c13::run), ("C21", c21::run)];
